@@ -512,3 +512,8 @@ mod tests {
         );
     }
 }
+
+// Verification hook (guard: cfg(kani)): harnesses that need the builder's private fields.
+#[cfg(kani)]
+#[path = "../../verif/kani/c19_builder.rs"]
+mod verif_kani_builder;
